@@ -51,9 +51,9 @@ class ImplBase:
 
     def fired_since(self, mark):
         out = []
-        for ev in self.env.fired_log[mark:]:
+        for ev, t in self.env.fired_log[mark:]:
             tid = self._tokid.get(id(ev))
-            if tid is not None: out.append(tid)
+            if tid is not None: out.append(f"{tid}@{f2t(t)}")
         return out
 
     def call(self, actor, fn, *a):
@@ -163,11 +163,101 @@ class PosImpl(ImplBase):
         raise ValueError(op)
 
 
+class _DummyNode:
+    def __init__(self, i): self.id = i
+
+class BufImpl(ImplBase):
+    """BufferStore directly (family buf) or through the Buffer edge (family bufedge)."""
+    def __init__(self, family, cap, mode):
+        super().__init__()
+        self.family, self.mode = family, mode
+        self.next_delay = 0
+        if family == "bufedge":
+            from factorysimpy.edges.buffer import Buffer
+            self.edge = Buffer(self.env, "B", capacity=int(cap), delay=lambda: t2f(self.next_delay), mode=mode)
+            self.edge.src_node = _DummyNode("src"); self.edge.dest_node = _DummyNode("dst")
+            self.store = self.edge.inbuiltstore
+            self.api = self.edge
+        else:
+            from factorysimpy.base.buffer_store import BufferStore
+            capacity = float("inf") if cap == "inf" else int(cap)
+            self.store = BufferStore(self.env, capacity=capacity, mode=mode)
+            self.edge = None
+            self.api = self.store
+
+    def observable_changed(self):
+        n = len(self.store.ready_items)
+        ch = n != getattr(self, "_nready", 0)
+        self._nready = n
+        return ch
+
+    def kstep(self):
+        self._nready = len(self.store.ready_items)
+        super().kstep()
+
+    def dispatch(self, op):
+        k = op[0]; api = self.api
+        r = self.kernel_op(op)
+        if r is not None: return r
+        if k == "rp":
+            r = self.call(op[1], api.reserve_put)
+            return "err " + r[1] if r[0] == "err" else f"tok {self.reg(r[1])}"
+        if k == "rg":
+            r = self.call(op[1], api.reserve_get)
+            return "err " + r[1] if r[0] == "err" else f"tok {self.reg(r[1])}"
+        if k == "put":
+            _, a, t, i, kd, d = op
+            it = self.item(i, kd)
+            if self.edge is not None:
+                self.next_delay = d
+                return self.fmt(self.call(a, api.put, self.tok(t), it), "ok")
+            return self.fmt(self.call(a, api.put, self.tok(t), (it, t2f(d))), "ok")
+        if k == "get":
+            return self.fmt(self.call(op[1], api.get, self.tok(op[2])), "item")
+        if k == "cp":
+            return self.fmt(self.call(None, api.reserve_put_cancel, self.tok(op[1])), "ok")
+        if k == "cg":
+            return self.fmt(self.call(None, api.reserve_get_cancel, self.tok(op[1])), "ok")
+        if k == "final":
+            if self.edge is not None:
+                r = self.call(None, self.edge.update_final_buffer_avg_content, self.env.now)
+                return "err " + r[1] if r[0] == "err" else "-"
+            # store level: the same bookkeeping step, through the store's own method
+            r = self.call(None, self.store._update_time_averaged_level)
+            return "err " + r[1] if r[0] == "err" else "-"
+        if k == "stat":
+            now = f2t(self.env.now)
+            n = len(self.store.items) + len(self.store.ready_items)
+            if self.edge is not None:
+                v = self.edge.stats["time_averaged_num_of_items_in_buffer"]
+            else:
+                v = self.store.time_averaged_num_of_items_in_store
+            return f"stat {float(v)!r} {n} {now}"
+        if k == "probe":
+            if op[1] == "ready":
+                return "probe " + " ".join(str(x.hid) for x in (self.edge.ready_items() if self.edge is not None else self.store.ready_items))
+            if self.edge is None:
+                # the store has no queries of its own; answer from its public lists as the edge does
+                st = self.store
+                if op[1] == "occ": return f"probe {len(st.items) + len(st.ready_items)}"
+                return "probe skip"
+            if op[1] == "can_put": r = self.call(None, self.edge.can_put)
+            elif op[1] == "can_get": r = self.call(None, self.edge.can_get)
+            elif op[1] == "occ": r = self.call(None, self.edge.occupancy)
+            else: raise ValueError(op)
+            if r[0] == "err": return "probe err " + r[1]
+            v = r[1]
+            return "probe " + (str(v).lower() if isinstance(v, bool) else str(v))
+        raise ValueError(op)
+
+
 def make_impl(header):
     w = header.split()
     assert w[0] == "new"
     if w[1] == "pos":
         return PosImpl(w[2], w[3] != "0", w[4] != "0", int(w[5]))
+    if w[1] in ("buf", "bufedge"):
+        return BufImpl(w[1], w[2], w[3])
     raise ValueError(header)
 
 
@@ -175,6 +265,7 @@ def lines_equal(impl_line, model_line):
     """Canonical comparison of one result line (floats are compared against exact rationals)."""
     if impl_line == model_line: return True
     a, b = impl_line.split(), model_line.split()
+    if a == ["probe", "skip"] and b and b[0] == "probe": return True
     if a and b and a[0] == "stat" and b[0] == "stat":
         if a[-2:] != b[-2:]: return False
         if a[1] == "nostat": return True
